@@ -53,5 +53,7 @@ SEEDED = [
     ("C10-11", "C10-ENDIAN"),
     ("C10-12", "C10-FOLDER"),
     ("C10-13", "C10-SIB"),
+    ("C10-14", "C10-LABEL"),
+    ("C10-15", "C10-TABLES"),
 ]
 MUTANTS = list(MUTANTS) + [_P("seed-" + sid, _os.path.join(_SEEDS, sid, "patch.diff"), rule) for sid, rule in SEEDED if _os.path.exists(_os.path.join(_SEEDS, sid, "patch.diff"))]
